@@ -796,12 +796,15 @@ pub fn shapes(prog: &Program, built: Option<&Built>) -> Vec<String> {
         for p in &c.private_input_rows {
             let mut operand = false;
             for op in &c.ops {
-                if let Op::Alu { a, b, c: cc, out: o, .. } = op {
-                    if o == p {
+                if let Op::Alu { kind, a, b, c: cc, out: o, .. } = op {
+                    if o == p && *kind != AluOpKind::BoolCheck {
                         out.push("private-input-is-alu-out".into());
                     }
+                    if o == p && *kind == AluOpKind::BoolCheck {
+                        out.push("bool-check-on-private-input".into());
+                    }
                     let n = [Some(*a), Some(*b), *cc].iter().filter(|x| **x == Some(*p)).count();
-                    if n > 1 {
+                    if n > 1 && *kind != AluOpKind::BoolCheck {
                         out.push("private-input-twice-in-one-op".into());
                     }
                     operand |= n > 0;
